@@ -7,6 +7,7 @@
 #pragma once
 
 #include <pika/config.hpp>
+#include <pika/config/verif_hooks.hpp>
 
 #include <pika/allocator_support/allocator_deleter.hpp>
 #include <pika/allocator_support/internal_allocator.hpp>
@@ -228,6 +229,7 @@ namespace pika::split_tuple_detail {
             os.reset();
 
             predecessor_done = true;
+            PIKA_VERIF_POINT(::pika::verif::ss_done, this, 2, 0);
 
             {
                 // We require taking the lock here to synchronize with
@@ -285,6 +287,7 @@ namespace pika::split_tuple_detail {
         {
             if (predecessor_done)
             {
+                PIKA_VERIF_POINT(::pika::verif::ss_add, this, 2, 1);
                 // If we read predecessor_done here it means that one of
                 // set_error/set_stopped/set_value has been called and
                 // values/errors have been stored into the shared state.
@@ -296,10 +299,12 @@ namespace pika::split_tuple_detail {
                 // If predecessor_done is false, we have to take the
                 // lock to potentially add the continuation to the
                 // vector of continuations.
+                PIKA_VERIF_POINT(::pika::verif::ss_add, this, 2, 0);
                 std::unique_lock<mutex_type> l{mtx};
 
                 if (predecessor_done)
                 {
+                    PIKA_VERIF_POINT(::pika::verif::ss_add, this, 2, 2);
                     // By the time the lock has been taken,
                     // predecessor_done might already be true and we can
                     // release the lock early and call the continuation
@@ -316,6 +321,7 @@ namespace pika::split_tuple_detail {
                     // to the vector and the vector is not threadsafe in
                     // itself. The continuation will be called later
                     // when set_error/set_stopped/set_value is called.
+                    PIKA_VERIF_POINT(::pika::verif::ss_add, this, 2, 3);
                     continuations[Index] = [this, &receiver]() mutable {
                         pika::detail::visit(
                             stopped_error_value_visitor<Index, Receiver>{receiver}, v);
